@@ -11,6 +11,7 @@ import (
 	"math/rand/v2"
 
 	"github.com/oasisprotocol/curve25519-voi/internal/field"
+	"github.com/oasisprotocol/curve25519-voi/zzverif/fluent"
 	"github.com/oasisprotocol/curve25519-voi/zzverif/gen"
 	"github.com/oasisprotocol/curve25519-voi/zzverif/mon"
 	"github.com/oasisprotocol/curve25519-voi/zzverif/ref"
@@ -425,6 +426,10 @@ func (x *ctx) api(rng *rand.Rand) {
 }
 
 func runCase(r *mon.Run, c Case) {
+	if c.Kind == "fluent" {
+		fluentCheck(r)
+		return
+	}
 	rng := r.Rng(c.Stream)
 	x := &ctx{r: r, c: c}
 	switch c.Kind {
@@ -462,5 +467,12 @@ func main() {
 	r.Parallel(len(cases), func(i int) { runCase(r, cases[i]) })
 	r.Sample("case", cases[0])
 	r.Sample("case", cases[len(cases)/2])
+	fluentCheck(r)
 	r.Finish()
+}
+
+// fluentCheck: every "sets the receiver and returns it" method of this property's types must return its receiver
+// (package fluent).
+func fluentCheck(r *mon.Run) {
+	fluent.Check(r, Case{Kind: "fluent"}, (*field.Element)(nil))
 }
